@@ -23,7 +23,7 @@ ASSUMPTIONS = ['floor-based integer bin arithmetic is the specification: window 
                'a bin is "inside the contig" when start>=0 and end<=contig length (the documented --keepOverBounds rule)']
 MIN_NONTRIVIAL = {'quick': 2000, 'thorough': 50000}
 REQUIRED_MONITORS = ['call:bamToCountTable.coordinate_to_bins', 'call:utils.binning.coordinate_to_bins',
-                     'hook:coordinate_to_bins_during_table', 'table:cells_compared', 'history:two_files_one_call', 'history:same_args_second_call', 'option:splitFeatures_with_bin']
+                     'hook:coordinate_to_bins_during_table', 'table:cells_compared', 'history:two_files_one_call', 'history:same_args_second_call', 'option:splitFeatures_with_bin', 'option:bin_tag_is_the_only_feature']
 EXHAUSTIVE = {'quick': True, 'thorough': True}
 
 
@@ -178,7 +178,7 @@ def run_table(case, acc, b2c):
         cell = r.choice(cells)
         tags = {'SM': cell}
         if bintag in ('DS', 'xs'):
-            tags[bintag] = x
+            tags[bintag] = x if (k + case['i']) % 7 else str(x)     # every seventh value is stored as text instead of as an integer
         recs.append({'name': f'r{k}', 'flag': flag, 'tid': tid, 'pos': pos, 'mapq': 60, 'cigar': f'{readlen}M',
                      'seq': 'A' * readlen, 'qual': [30] * readlen, 'tags': tags,
                      'next_tid': tid if paired and not flag & 8 else -1, 'next_pos': pos if paired and not flag & 8 else -1})
@@ -193,6 +193,13 @@ def run_table(case, acc, b2c):
                 rejected += 1
             key = (cell, (refs[tid][0], st, en))
             truth[key] = truth.get(key, 0) + w
+    only_bin_feature = case['i'] % 5 == 3 and bintag in ('DS', 'xs')
+    if only_bin_feature:
+        acc.count('option:bin_tag_is_the_only_feature')
+        t2 = {}
+        for (cell, (cn, st, en)), w_ in truth.items():
+            t2[(cell, (st, en))] = t2.get((cell, (st, en)), 0) + w_
+        truth = t2
     calls = []
     orig = b2c.coordinate_to_bins
 
@@ -209,6 +216,8 @@ def run_table(case, acc, b2c):
             import contextlib
             with contextlib.redirect_stdout(io.StringIO()):
                 args = table_args(bams[0], b, s, keep, bintag, 'reference_name')
+                if only_bin_feature:
+                    args.joinedFeatureTags = bintag      # the binned tag is the only feature: rows are (start, end), summed over the contigs
                 if case['i'] % 4 == 1:
                     # --splitFeatures (one count per value of a multi-valued feature) next to -bin: the contig feature has one value per read,
                     # so the binned table is the same table
@@ -223,6 +232,15 @@ def run_table(case, acc, b2c):
                     df_second = b2c.create_count_table(args, return_df=True)
                 else:
                     df = b2c.create_count_table(args, return_df=True)
+        except Exception as ex:
+            import traceback as _tb
+            where = _tb.extract_tb(ex.__traceback__)[-1]
+            acc.violate(f'count-table-raised:{type(ex).__name__}:{os.path.basename(where.filename)}:{where.name}',
+                        f'create_count_table raised {ex!r} for -bin {b} -sliding {s} -binTag {bintag} joinedFeatureTags={args.joinedFeatureTags} '
+                        f'splitFeatures={args.splitFeatures} ({history})', {'bin': b, 'sliding': s, 'binTag': bintag, 'joined': args.joinedFeatureTags,
+                                                                            'splitFeatures': args.splitFeatures, 'history': history})
+            _tb.clear_frames(ex.__traceback__)
+            return
         finally:
             b2c.coordinate_to_bins = orig
     acc.count('history:' + history)
